@@ -1,5 +1,5 @@
 CONSTANTS
-  NP = 2
+  NP = 4
   Stakes = {1}
   GeoSets = {{1}}
   PolGeoSets = {{1}}
@@ -8,12 +8,12 @@ CONSTANTS
   Kinds = {0, 3}
   CostBase = 3
   Den = 1
-  MaxSlots = 4
+  MaxSlots = 3
   GenN = 0
-  SubOrder = "sorted"
-  UnionMode = "any"
+  SubOrder = "any"
+  UnionMode = "firstseen"
   Mode = "mc"
-INIT UnionInit
+INIT SubInit
 NEXT Next
-INVARIANTS TypeOK EligibleOrderFree Valid Distinct Bounded Iff
+INVARIANTS TypeOK OrderIndependent
 CHECK_DEADLOCK FALSE
